@@ -150,6 +150,9 @@ Definition run_for (enumerate : bool) (c : sexp) : sexp :=
 Definition run_C11 (c : sexp) : sexp :=
   if Z.eqb (as_Z (nth_s 0 c)) 11 then run_for false c else
   if Z.eqb (as_Z (nth_s 0 c)) 12 then run_for true c else
+  (* mode 13 (nested <For> whose inner lists change between the outer updates): not modelled — the
+     check judges it with the oracle only *)
+  if Z.eqb (as_Z (nth_s 0 c)) 13 then Lst [] else
   (* mode 14 (harness/dom/src/c11store.rs): <For> over a keyed store field; the observation is that of
      mode 11 (the count a row shows is the label of its item in the store, incremented once per entry),
      whatever path the writes take (the 5th component of the case) *)
